@@ -43,6 +43,7 @@ func semanticFamiliesFor(c *core.Ctx, backend string) []*SemCase {
 	gs = append(gs, gen.MatDyn()...)
 	gs = append(gs, gen.CtlNest()...)
 	gs = append(gs, gen.MemCopy()...)
+	gs = append(gs, gen.PtrArg()...)
 	// random structured programs (own generator state, so that the table families above do not depend on their number)
 	if randFamilyOn(backend) {
 		gs = append(gs, gen.RandProgramsFor(rand.New(rand.NewSource(c.Seed*7919+13)), c.Pick(60, 1200), c.Pick(6, 10), backend == "glsl")...)
